@@ -300,9 +300,6 @@ Qed.
 End Mon.
 
 (* ---- reachable states --------------------------------------------------------------------------- *)
-Fixpoint run (g : cfg) (s : sys) (ops : list op) : sys :=
-  match ops with [] => s | o :: r => run g (fst (gstep g s o)) r end.
-
 Lemma run_inv g ops : forall s, Inv g s -> Inv g (run g s ops).
 Proof.
   induction ops as [|o ops IH]; intros s H; [exact H|]. cbn [run]. apply IH.
@@ -348,4 +345,29 @@ Proof.
   { intros s0 H. unfold finish_task in H. cbn in H. apply close_chan_open in H. now destruct H. }
   destruct out as [| |cs]; cbn [fst]; try apply F.
   destruct (handle_response _ _ _ _ _ _ _ _) as [[[s1 calls] evs]|]; cbn [fst]; apply F.
+Qed.
+
+(* ---- race cases: the final-state check accepts the model ------------------------------------------ *)
+Lemma mon_net_only g net pend d o : mon_net g (mkMon net pend d) o = mon_net g (mkMon net pend []) o.
+Proof. destruct o; reflexivity. Qed.
+
+Lemma track_run g ops : forall s, track g (s_net s) (s_pend s) ops = (s_net (run g s ops), s_pend (run g s ops)).
+Proof.
+  induction ops as [|o ops IH]; intros s; [reflexivity|]. cbn [track run].
+  destruct (gstep g s o) as [s' mo] eqn:E. cbn [fst]. pose proof (step_net g s o s' mo E) as Hn.
+  unfold mon_of in Hn. rewrite mon_net_only in Hn. rewrite <- Hn. apply IH.
+Qed.
+
+Lemma final_ok_model g ops : init_wf g = true ->
+  final_ok g ops (dump_all (g_np g) (s_ps (run g (init_sys g) ops))) = true.
+Proof.
+  intros Hw. unfold final_ok. pose proof (track_run g ops (init_sys g)) as T. cbn [init_sys s_net s_pend] in T.
+  rewrite T. destruct (run_inv g ops (init_sys g) (init_inv g Hw)) as [_ _ Hc].
+  apply forallb_forall. intros q Hq. assert (q <> 0) as Hq0 by (apply peers_in in Hq; lia).
+  destruct (Hc q Hq0) as [H|[H|H]].
+  - rewrite H. reflexivity.
+  - unfold pending in H. rewrite H. apply orb_true_iff. left. apply orb_true_r.
+  - apply orb_true_iff. right. apply Z.eqb_eq. rewrite nth_dump_in by exact Hq. rewrite cnt_dump.
+    rewrite (pall_count_zero q is_conn (ps_book (s_ps (run g (init_sys g) ops)))); [reflexivity|].
+    intros e He Hp. apply Z.eqb_neq. now apply H.
 Qed.
